@@ -62,6 +62,8 @@ KINDS = [
     "raggedzerodim",
     # entries that are themselves ragged (a list of rows of differing lengths)
     "innerragged",
+    # dictionaries of equal size with differing keys
+    "dictsame",
 ]
 PATTERNS = ["none", "some", "all", "first", "last", "allbutone"]
 LEVELS = ["block", "assembly", "component", "core"]
@@ -93,7 +95,7 @@ def make_collection(kind, n, pattern, seedv):
     ints = [0, 1, -1, 7, 1000, -12345]
     intx = ints + [2**63 - 1, -(2**63), -(2**63) + 2, 2**31, -(2**31) + 2]
     strs = ["a", "bc", "hello world", "", "B0001-002", "x" * 30]
-    strx = strs + ["ünï", "日本", "tab\there"]
+    strx = strs + ["ünï", "日本", "tab\there", "moved in cycle 3; ", " ", "line\n", "  lead", "end\t"]
 
     def one(j):
         if kind == "float":
@@ -172,6 +174,12 @@ def make_collection(kind, n, pattern, seedv):
         if kind == "dict":
             keys = ["U235", "PU239", "ZR", "FE"]
             return {k: g.choice(fl[2:]) for k in keys if g.next() % 2} or {"U235": 1.0}
+        if kind == "dictsame":
+            # every object holds the same number of entries, under keys of its own choice
+            keys = ["U235", "PU239", "ZR", "FE"]
+            a_ = g.next() % 4
+            b_ = (a_ + 1 + g.next() % 3) % 4
+            return {keys[a_]: g.choice(fl[2:]), keys[b_]: g.choice(fl[2:])}
         if kind == "dictx":
             keys = ["U235", "PU239", "ZR", "FE"]
             return {k: g.choice(flx) for k in keys if g.next() % 2}
@@ -299,7 +307,7 @@ def JaggedFlat(x):
         yield x
 
 
-REAL_KINDS = {"innerragged", "raggedzerodim", "arrinner", "ragged2F", "arr2F", "float", "floatx", "npfloat32", "arr1", "arr2", "arrnan", "nested", "tuple", "ragged", "ragged2", "raggedscalar", "raggedempty", "dict", "dictx"}
+REAL_KINDS = {"dictsame", "innerragged", "raggedzerodim", "arrinner", "ragged2F", "arr2F", "float", "floatx", "npfloat32", "arr1", "arr2", "arrnan", "nested", "tuple", "ragged", "ragged2", "raggedscalar", "raggedempty", "dict", "dictx"}
 
 
 def is_sentinel(v):
